@@ -97,6 +97,15 @@ MUTATORS_ALL = frozenset(('append', 'remove', 'pop', 'insert', 'extend', 'clear'
 def r02_4(run):
     ev = _event_cls(run)
     gu = run.idx.find_method(ev, 'got_update')
+    g0 = cfg_of(gu)
+    for it in [n for n in g0.live if n.kind == 'iter']:
+        tgt = it.ast.target.id if isinstance(it.ast.target, ast.Name) else None
+        calls = g0.nodes_where(lambda n: any(isinstance(a, ast.Call) and isinstance(a.func, ast.Name) and a.func.id == tgt for a in node_asts(n)))
+        body = [s_ for lab, s_ in it.succ if lab == 'body']
+        r = g0.reachable(body, avoid=lambda n: n in calls)
+        skipped = it in r
+        run.ob('R02.4', gu, it.ast, 'every listener in the snapshot is called (no path through the loop body skips the call)', bool(calls) and not skipped, slot='call-every-listener',
+               message='Event.got_update can skip a listener that was registered when the event arrived (e.g. one that another listener just removed)')
     k = 0
     for lp in [n for n in walk_unit(gu) if isinstance(n, ast.For)]:
         tgt = lp.target.id if isinstance(lp.target, ast.Name) else None
